@@ -98,6 +98,10 @@ func decompress(codec string, data []byte, strictTail bool) ([]byte, error) {
 		if len(data) < 4 {
 			return nil, fmt.Errorf("ref: snappy block of %d bytes has no room for a CRC", len(data))
 		}
+		// the block states its decoded length: snappy never expands by more than about 21x
+		if n, err := snappy.DecodedLen(data[:len(data)-4]); err != nil || n > 32*len(data)+1024 {
+			return nil, fmt.Errorf("ref: snappy block of %d bytes claims %d decoded bytes (%v)", len(data), n, err)
+		}
 		out, err := snappy.Decode(nil, data[:len(data)-4])
 		if err != nil {
 			return nil, fmt.Errorf("ref: snappy: %w", err)
@@ -219,21 +223,24 @@ func WriteFile(fs FileSpec) ([]byte, FileLayout, error) {
 	return out, lay, nil
 }
 
-// ParseFile is the strict reference reader for container files. It validates
-// magic, the metadata map encoding, that avro.schema is present, the codec
-// name, each block's size, decompression (snappy CRC, clean deflate end), the
-// sync marker after each block and that nothing is left in the file.
-func ParseFile(data []byte) (FileLayout, error) {
+// ParseHeader parses magic, metadata and the header's sync marker only (no block
+// is touched, nothing is decompressed).
+func ParseHeader(data []byte) (FileLayout, error) {
+	lay, _, err := parseHeader(data)
+	return lay, err
+}
+
+func parseHeader(data []byte) (FileLayout, *Decoder, error) {
 	var lay FileLayout
 	if len(data) < 4 || !bytes.Equal(data[:4], Magic) {
-		return lay, fmt.Errorf("ref: bad magic")
+		return lay, nil, fmt.Errorf("ref: bad magic")
 	}
-	d := Decoder{Buf: data, Pos: 4}
+	d := &Decoder{Buf: data, Pos: 4}
 	lay.Meta = map[string][]byte{}
 	for {
 		n, err := d.long("count")
 		if err != nil {
-			return lay, fmt.Errorf("ref: metadata count: %w", err)
+			return lay, nil, fmt.Errorf("ref: metadata count: %w", err)
 		}
 		if n == 0 {
 			break
@@ -241,25 +248,25 @@ func ParseFile(data []byte) (FileLayout, error) {
 		if n < 0 {
 			n = -n
 			if _, err := d.long("size"); err != nil {
-				return lay, err
+				return lay, nil, err
 			}
 		}
 		for i := int64(0); i < n; i++ {
 			kl, err := d.long("length")
 			if err != nil {
-				return lay, err
+				return lay, nil, err
 			}
 			k, err := d.take("key", kl)
 			if err != nil {
-				return lay, fmt.Errorf("ref: metadata key: %w", err)
+				return lay, nil, fmt.Errorf("ref: metadata key: %w", err)
 			}
 			vl, err := d.long("length")
 			if err != nil {
-				return lay, err
+				return lay, nil, err
 			}
 			v, err := d.take("payload", vl)
 			if err != nil {
-				return lay, fmt.Errorf("ref: metadata value: %w", err)
+				return lay, nil, fmt.Errorf("ref: metadata value: %w", err)
 			}
 			lay.Meta[string(k)] = append([]byte(nil), v...)
 		}
@@ -267,12 +274,24 @@ func ParseFile(data []byte) (FileLayout, error) {
 	lay.SyncStart = d.Pos
 	s, err := d.take("sync", 16)
 	if err != nil {
-		return lay, fmt.Errorf("ref: header sync: %w", err)
+		return lay, nil, fmt.Errorf("ref: header sync: %w", err)
 	}
 	copy(lay.Sync[:], s)
 	lay.HeaderEnd = d.Pos
 	if _, ok := lay.Meta["avro.schema"]; !ok {
-		return lay, fmt.Errorf("ref: no avro.schema in header")
+		return lay, nil, fmt.Errorf("ref: no avro.schema in header")
+	}
+	return lay, d, nil
+}
+
+// ParseFile is the strict reference reader for container files. It validates
+// magic, the metadata map encoding, that avro.schema is present, the codec
+// name, each block's size, decompression (snappy CRC, clean deflate end), the
+// sync marker after each block and that nothing is left in the file.
+func ParseFile(data []byte) (FileLayout, error) {
+	lay, d, err := parseHeader(data)
+	if err != nil {
+		return lay, err
 	}
 	codec := "null"
 	if c, ok := lay.Meta["avro.codec"]; ok {
